@@ -37,7 +37,7 @@ impl Property for C09 {
         40_000
     }
     fn random_cases(&self, tier: Tier) -> u64 {
-        tier.pick(25_000, 400_000)
+        tier.pick(100_000, 500_000)
     }
     fn run(&self, t: &mut Tape, ctx: &mut CaseCtx) -> Verdict {
         let job = gen_job9(t);
